@@ -100,7 +100,10 @@ func (clientScn) Generate(g *simrt.Rng, tier string) any {
 			p.Server = append(p.Server, SrvOp{Kind: "reset1", N: g.IntN(3)})
 		case g.Bool(0.3):
 			// the server (or something in front of it) accepts the connection and fails the handshake, several times in a row
-			p.Server = append(p.Server, SrvOp{Kind: "reset"}, SrvOp{Kind: "cut", N: 1 + g.IntN(8)})
+			if g.Bool(0.5) {
+				p.Server = append(p.Server, SrvOp{Kind: "reset"})
+			} // else: the live connections stay, only additional ones (channels target reached) fail their handshake
+			p.Server = append(p.Server, SrvOp{Kind: "cut", N: 1 + g.IntN(8)})
 		case g.Bool(0.5):
 			p.Server = append(p.Server, SrvOp{Kind: "refuse", N: 1 + g.IntN(5)})
 		default:
